@@ -141,6 +141,20 @@ def do_import(src, sid):
             meta['detected']['thorough'] = res2
         with open(os.path.join(d, 'meta.json'), 'w') as f:
             json.dump(meta, f, indent=1)
+        # remember the result of the very first run (before any strengthening of the checks)
+        flog = os.path.join(SEEDED, 'FIRST_RUN.json')
+        try:
+            with open(flog) as f:
+                first = json.load(f)
+        except Exception:
+            first = {}
+        if sid not in first:
+            q = any(r['caught'] for r in meta['detected']['quick'].values())
+            t = any(r['caught'] for r in meta['detected'].get('thorough', {}).values())
+            first[sid] = ('caught (quick)' if q else 'quick missed, thorough caught' if t
+                          else 'missed (quick+thorough)')
+            with open(flog, 'w') as f:
+                json.dump(first, f, indent=1, sort_keys=True)
         status = {t: {p: ('CAUGHT' if r['caught'] else f"missed rc={r['rc']}")
                       for p, r in rr.items()} for t, rr in meta['detected'].items()}
         print(f"{sid}: kept; {status}")
@@ -157,6 +171,8 @@ def main(argv):
         return do_import(argv[1], argv[2])
     if argv[0] == 'table':
         for sid in sorted(os.listdir(SEEDED)):
+            if not os.path.isdir(os.path.join(SEEDED, sid)):
+                continue
             with open(os.path.join(SEEDED, sid, 'meta.json')) as f:
                 meta = json.load(f)
             det = meta.get('detected', {})
@@ -180,7 +196,7 @@ def main(argv):
             else:
                 ids.append(a)
         todo = [s for s in sorted(os.listdir(SEEDED))
-                if not ids or s in ids or any(s.startswith(i) for i in ids)]
+                if os.path.isdir(os.path.join(SEEDED, s)) and (not ids or s in ids or any(s.startswith(i) for i in ids))]
         with concurrent.futures.ThreadPoolExecutor(max(1, 16 // jobs)) as ex:
             for sid, (meta, res) in zip(todo, ex.map(lambda s: check_one(s, tier, jobs), todo)):
                 meta.setdefault('detected', {})[tier] = res
